@@ -94,7 +94,12 @@ PROPS = {
         distinct_key=None,
         assumptions=E2_ASSUME,
         stages=[dict(name="hist", driver="hist", flavour="asan", args=["--alphabet", "rw", "--oracle", "get"],
-                     quick=["--plan", c01_plan("quick")], thorough=["--plan", c01_plan("thorough")])],
+                     quick=["--plan", c01_plan("quick")], thorough=["--plan", c01_plan("thorough")]),
+                # fd limiter squeezed to one descriptor (RLIMIT_NOFILE answer 5, no mmap): tables beyond the first are
+                # opened and closed per read; the limiter is set once per process, hence a stage of its own
+                dict(name="hist-fdlimit", driver="hist", flavour="asan", args=["--alphabet", "rw", "--oracle", "get,iter", "--rlimit", "5"], weight=0.3,
+                     quick=["--plan", plan(["B1,mmap=0@0/2^" + L_DEEP, "B1,mmap=0,cache=1@0/2^" + L_BIG, "B1,mmap=0@3/2"])],
+                     thorough=["--plan", plan(["B1,mmap=0@3^" + L_DEEP, "B1,mmap=0,cache=1@3^" + L_BIG, "B1,mmap=0@4/3", "B1,mmap=0,snappy=1,bloom=1@3/2"])])],
     ),
     "C06": dict(
         level="model_checking",
